@@ -181,6 +181,9 @@ inline Outcome runTridiagCase(const KV& c)
         o.cls("several_threads_available");
     if (n > 10000)
         o.cls("n_gt_10000");
+    const bool restate = c.getI("restate", 0) != 0;
+    if (restate)
+        o.cls("cyclic_flag_restated_between_solves");
     const int relocate = (int)c.getI("relocate", 0);
     if (relocate)
         o.cls(relocate == 1 ? "relocated_by_move" : "relocated_by_copy");
@@ -218,6 +221,12 @@ inline Outcome runTridiagCase(const KV& c)
             holder[0] = copy;
         }
         SymmetricTridiagonalSolver<double>& S = holder[0];
+        if (k >= 1 && restate) {
+            // a value-preserving call of a setter between two solves (re-stating the cyclic flag; reading the accessors)
+            S.is_cyclic(S.is_cyclic());
+            (void)S.rows();
+            (void)S.columns();
+        }
         S.solveInPlace(x.data(), t1.data(), cyclic ? t2.data() : nullptr);
         std::vector<LD> bl(b.begin(), b.end());
         std::vector<LD> xr = useDense ? lu->solve(bl) : tri.solve(bl);
@@ -418,6 +427,7 @@ inline KV genTridiagCase()
     c.putI("nrhs", rint(1, 4));
     c.putI("rhs_kind", rint(0, 5));
     c.putI("relocate", rweighted({4, 1, 1}));
+    c.putI("restate", rweighted({3, 1}));
     c.putU("rhs_seed", rseed());
     return c;
 }
